@@ -460,6 +460,11 @@ def run(prop, tier):
     filt = None
     if prop == "C16":
         filt = filter_stream(ck, tier, ex, ps)
+    sinkreg = None
+    if prop == "C17":
+        # the by-name sink registry: real SinkManager vs SinkReg.step + idempotence oracles (tools/sinkreg_stream.py)
+        import sinkreg_stream
+        sinkreg = sinkreg_stream.run(ck, tier, ps)
 
     mine_or = [o for o in res["oracle"] if o["prop"] == prop]
     mine_mm = [m for m in res["mismatches"] if prop in m["props"]]
@@ -515,6 +520,8 @@ def run(prop, tier):
         ck.cov["spinlock_stream"] = spin
     if filt is not None:
         ck.cov["filter_stream"] = filt
+    if sinkreg is not None:
+        ck.cov["sink_registry_stream"] = sinkreg
     return ck.finish()
 
 
@@ -543,6 +550,9 @@ def replay(prop, path):
     first = open(path).readline().strip()
     if first.startswith(FILT_TAG):
         return replay_filt(prop, path, first)
+    if "sinkreg" in open(path).readline():
+        import sinkreg_stream
+        return sinkreg_stream.replay(prop, path)
     lines = [l.rstrip("\n") for l in open(path) if l.strip() and not l.startswith("#")]
     v = 1 if re.search(r"\.v1\.|variant=1|v1_", path + " ".join(lines[:2])) else 0
     ok, hbin, log = vlib.build_harness("h2_v%d" % v, ["h2_backend.cpp"], extra_flags=["-fno-access-control", "-DH2_VARIANT=%d" % v])
